@@ -31,6 +31,9 @@ def unhx(s: str) -> bytes:
 
 
 def err(e: BaseException) -> str:
+    import binascii
+    if isinstance(e, binascii.Error):          # a ValueError subclass whose class name is just "Error"
+        return "err ValueError"
     return "err " + type(e).__name__
 
 
@@ -54,3 +57,4 @@ import impl_c14  # noqa: E402,F401
 import impl_ec  # noqa: E402,F401
 import impl_rw  # noqa: E402,F401
 import impl_c19  # noqa: E402,F401
+import impl_c18  # noqa: E402,F401
